@@ -20,7 +20,7 @@ POINTS = [
     ("x = 2*x + G\nErr_Tolerance = 1e-6\nMaxTime = 1", {'x': 1.5}, {'G': 1.0}, 5),
     ("x = 1/Y + 0.5*x\nErr_Tolerance = 1e-6\nMaxTime = 1", {'x': 1.0}, {'Y': 0.0}, 6),
     ("x = x*x + C\nErr_Tolerance = 1e-6\nMaxTime = 1", {'x': 0.25}, {'C': 0.125}, 400),
-    ("x = 0.9*x + G\nErr_Tolerance = 1e-8\nMaxTime = 1", {'x': -1000.0}, {'G': 1000.0}, 400),
+    ("x = 0.9*x + G\nErr_Tolerance = 1e-3\nMaxTime = 1", {'x': -10.0}, {'G': 10.0}, 400),
 ]
 
 
@@ -106,3 +106,91 @@ def run(chk=None):
 
 if __name__ == '__main__':
     print(run())
+
+
+def run_coef(chk=None):
+    """SymCoef (symbolic coefficients rendered as placeholders): with the coefficient pinned to a concrete value the rendered
+    right-hand side must evaluate to the same number as the plain-float rendering of the real Equation/Term code."""
+    from vf.symx import SymCoef
+    from vf.eqsmt import to_z3, val_fraction
+    from sfc_models.equation import Equation, Term
+    bad, n = [], 0
+    pts = {'x': fractions.Fraction(7, 3), 'y': fractions.Fraction(-5, 4)}
+    for lead in (None, 'y*2', ''):
+        for c in (-2.5, -1.0, 0.0, 1.0, 3.0, 0.125):
+            for add in ('x', '-x', '(-x)', 'x*y'):
+                def build(wrap):
+                    eq = Equation('lhs', '', [Term(lead, is_blob=True)] if lead is not None else [])
+                    eq.AddTerm('x')
+                    eq.AddTerm('x*y')
+                    for tm in eq.TermList:
+                        if not tm.IsBlob and tm.Term == 'x':
+                            tm.Constant = wrap(c)
+                    eq.AddTerm(add)
+                    return eq.RHS()
+                plain = build(float)
+                D = Driver(timeout_ms=5000, max_paths=3)
+                res = D.run_all(lambda: build(lambda v: SymCoef(symx.rat(v))))
+                n += 1
+                if D.paths != 1 or not res:
+                    bad.append(('coef', (lead, c, add), 'forked into %d paths' % D.paths))
+                    continue
+                sym_txt = res[0][1]
+                env = {k: z3.RealVal(str(v)) for k, v in pts.items()}
+                env.update(D.placeholders)
+                a = val_fraction(to_z3(sym_txt, env))
+                b = val_fraction(to_z3(plain, {k: z3.RealVal(str(v)) for k, v in pts.items()}))
+                if a != b:
+                    bad.append(('coef', (lead, c, add), 'symbolic rendering %r = %s, float rendering %r = %s' % (sym_txt, a, plain, b)))
+    if chk is not None:
+        chk.counters['differential_runs'] = chk.counters.get('differential_runs', 0) + n
+        for kind, what, why in bad:
+            chk.harness_errors.append('E2 self-check (%s) failed on %r: %s' % (kind, what, why))
+    return n, bad
+
+
+def run_str(chk=None):
+    """SymStr: with every symbolic character pinned to a concrete one, the real ParseString must produce exactly the lists it
+    produces on the plain str."""
+    from vf.symx import SymStr
+    from sfc_models.equation_parser import EquationParser
+    bad, n = [], 0
+    texts = ["x = 1 # an Exogenous shock = 3 #x\ny = x + 2\nz = y(k-1)\n# exogenous\ng = [1, 2]",
+             "x = 1\n  # nothing here = 5\ny = x (k -1 )\nx(0) = 3 # (0)\nMaxTime = 4 # t\n#EXOGENOUS\ng = [1, 2] # =",
+             "a = b = c\noops\nx=2*y # exo genous\ny = 1"]
+    for text in texts:
+        p0 = EquationParser()
+        m0 = p0.ParseString(text)
+        want = (p0.Endogenous, p0.Lagged, p0.Exogenous, p0.InitialConditions, p0.MaxTime, m0)
+        D = Driver(timeout_ms=5000, max_paths=3)
+
+        def run():
+            cs = []
+            out = []
+            inside = False
+            for ch in text:
+                if ch == '\n':
+                    inside = False
+                if inside and ch != '\n':
+                    v = z3.Int('pin_%d' % len(cs))
+                    D.s.add(v == ord(ch))
+                    cs.append(v)
+                    out.append(symx.SymChar(v))
+                else:
+                    out.append(ch)
+                if ch == '#':
+                    inside = True
+            p = EquationParser()
+            msg = p.ParseString(SymStr(out))
+            return (p.Endogenous, p.Lagged, p.Exogenous, p.InitialConditions, p.MaxTime, msg)
+        res = D.run_all(run)
+        n += 1
+        if D.paths != 1 or not res:
+            bad.append(('str', text, 'pinned run forked into %d paths' % D.paths))
+        elif res[0][1] != want:
+            bad.append(('str', text, 'lists %r vs plain %r' % (res[0][1], want)))
+    if chk is not None:
+        chk.counters['differential_runs'] = chk.counters.get('differential_runs', 0) + n
+        for kind, what, why in bad:
+            chk.harness_errors.append('E2 self-check (%s) failed on %r: %s' % (kind, what, why))
+    return n, bad
